@@ -16,6 +16,7 @@ const A: &[&str] = &[
     "DEFGATE A a AS SEQUENCE:\n    A a\n",
     "DEFGATE A(%p) a AS SEQUENCE:\n    B(%p+1) a\n    B(%p) a\n",
     "DEFGATE A a b AS SEQUENCE:\n    H a\n",
+    "DEFGATE A(%p) a b AS SEQUENCE:\n    CNOT b a\n    B(%p*%p) b\n    B(%p) a\n",
 ];
 const B: &[&str] = &["", "DEFGATE B a AS SEQUENCE:\n    H a\n", "DEFGATE B a AS SEQUENCE:\n    C a\n    DAGGER H a\n", "DEFGATE B(%q) a AS SEQUENCE:\n    RZ(%q*2) a\n"];
 const C: &[&str] = &["", "DEFGATE C a AS SEQUENCE:\n    A a\n", "DEFGATE C a AS SEQUENCE:\n    X a\n"];
@@ -361,7 +362,7 @@ pub static C20: PropDef = PropDef {
     id: "C20",
     level: "exploration",
     engine: "sweep",
-    rule: "programs = one of 6 definitions of sequence gate A x 4 of B x 3 of C (nesting, a self cycle, a cycle through C, parameter passing, an unused formal qubit) + a matrix DEFGATE, x every body of 1-2 invocations from a 12-item menu (right / wrong arity, wrong parameter count, modifier on a sequence gate, variable qubit, plain gates, MEASURE) x all 8 selection filters over {A,B,C}: result body / error class, kept definitions and untouched rest compared with the reference. non-trivial = case with at least one real expansion",
+    rule: "programs = one of 7 definitions of sequence gate A x 4 of B x 3 of C (nesting, a self cycle, a cycle through C, parameter passing, an unused formal qubit, an inner call that permutes the formal qubits) + a matrix DEFGATE, x every body of 1-2 invocations from a 12-item menu (right / wrong arity, wrong parameter count, modifier on a sequence gate, variable qubit, plain gates, MEASURE) x all 8 selection filters over {A,B,C}: result body / error class, kept definitions and untouched rest compared with the reference. non-trivial = case with at least one real expansion",
     assumptions: ASSUME,
     run: |ctx| seq_run(ctx, "C20", Which::C20),
     replay: |c| seq_replay("C20", Which::C20, c),
